@@ -717,5 +717,17 @@ func (x *Exec) opaqueLess(a, b *StrVal) *Term {
 	if cb && pb.Len() < pa.Len() {
 		return TFalse // b is complete and a proper prefix of a
 	}
+	// the same format applied to the same operands yields the same text: neither is smaller
+	if a.Opaque && b.Opaque && a.OpFmt != "" && a.OpFmt == b.OpFmt && len(a.OpArgs) == len(b.OpArgs) {
+		if eq := x.opaqueEq(a, b); eq.IsTrue() {
+			return TFalse
+		}
+	}
+	if a.Opaque && b.Opaque {
+		// the order depends on text the engine does not know (numbers rendered by Sprintf): both orders
+		// are explored through an unconstrained oracle bit. Sound for order-insensitive obligations only;
+		// order-sensitive observations would show up as a native validation mismatch.
+		return x.fresh("ord", SBool)
+	}
 	panic(unsupported("ordering of strings whose distinguishing text is unknown (opaque)"))
 }
